@@ -841,8 +841,30 @@ func fromBody(v ssa.Value, loose bool) bool {
 	return true
 }
 
+// isAttrStore: a StoreAttribute call on the metadata storer, whatever its file argument.
+func isAttrStore(c ssa.CallInstruction) bool {
+	cc := c.Common()
+	return cc.IsInvoke() && typeStr(cc.Value.Type()) == "backend/meta.MetadataStorer" && cc.Method.Name() == "StoreAttribute"
+}
+
+// someStorerIgnoresFile: an implementation of MetadataStorer.StoreAttribute never looks at its *os.File parameter
+// (the sidecar store addresses the attribute by bucket and object name): with that store configured a write
+// "through the temp file's descriptor" lands on the published object's attributes at once.
+func someStorerIgnoresFile(p *Program) bool {
+	for _, f := range p.FuncsIn("backend/meta") {
+		if f.Name() != "StoreAttribute" || f.Signature.Recv() == nil || len(f.Params) < 2 || len(f.Blocks) == 0 {
+			continue
+		}
+		if refs := f.Params[1].Referrers(); refs == nil || len(*refs) == 0 {
+			return true
+		}
+	}
+	return false
+}
+
 func c02Drain(p *Program, r *Report) {
 	eff := effectFuncs(p)
+	pathAddressed := someStorerIgnoresFile(p)
 	for _, name := range []string{"(*backend/posix.Posix).PutObject", "(*backend/posix.Posix).UploadPart"} {
 		f := p.Func(name)
 		good, bad := drainCalls(f)
@@ -858,7 +880,7 @@ func c02Drain(p *Program, r *Report) {
 			if _, isCall := c.(*ssa.Call); !isCall {
 				continue // deferred cleanup
 			}
-			if isEffectCall(c, eff) {
+			if isEffectCall(c, eff) || (pathAddressed && isAttrStore(c)) {
 				calls = append(calls, c)
 			}
 		}
